@@ -127,6 +127,12 @@ def run(ctx, rep):
         k2 = {(s['fn'], s['what'], s['ord']) for s in s2}
         extra = sorted(k2 - {(a, b, c) for a, b, c in k1})
         rep.note('release-like config: %d panic sources (default: %d)' % (len(s2), len(sites)))
+    # ---- R16.7 ---------------------------------------------------------------------------------
+    # the word of a heap value is an address, which differs from run to run: an immediate decoder (as_bool / as_int / as_function
+    # only shift the word) applied to it makes the outcome depend on where the allocator put the object
+    rep.rule('R16.7', 'no outcome is read out of an address: the immediate decoders (which only shift the word) run only on values tested to have their tag - applied to an array or a string they would yield bits of the allocation address, different on every run')
+    from rules import unsafe_inv as _ui
+    _ui.check_immediates(ctx, rep, 'R16.7')
     # ---- R16.6 ---------------------------------------------------------------------------------
     # memory that was never written must not become a value: what it holds depends on earlier evaluations on the same thread
     rep.rule('R16.6', 'no uninitialised memory becomes observable (Vec::set_len only shrinks; no assume_init / uninitialized)')
